@@ -170,6 +170,7 @@
 ; ---- base-w digits (RFC 8391 Algorithm 1), most significant bits first; lw = lg(w) in {2,4,8} ----
 (declare-fun bwdig ((Array Int Int) Int Int Int) Int)
 ;@ needs bwdig
+;@ defines bwdig
 (assert (forall ((B (Array Int Int)) (o Int) (k Int) (lw Int))
   (! (= (bwdig B o k lw)
   (ite (= lw 8) (select B (+ o k))
